@@ -254,6 +254,7 @@ type c03Env struct {
 	curSnap *c12Snap
 	// oracle bookkeeping
 	loadedNotCovering []string
+	namesMismatch     []string
 	nSup, nUnsup      int
 	haveV6            bool
 }
@@ -352,6 +353,33 @@ func (env *c03Env) setStorage(variant string) {
 			return nil
 		}
 	}
+}
+
+func c03LeafNames(c *c03Cert) []string {
+	var out []string
+	for _, d := range c.tls.Leaf.DNSNames {
+		out = append(out, strings.ToLower(d))
+	}
+	for _, ip := range c.tls.Leaf.IPAddresses {
+		out = append(out, ip.String())
+	}
+	return out
+}
+
+func sameSet(a, b []string) bool {
+	m := map[string]int{}
+	for _, x := range a {
+		m[x] |= 1
+	}
+	for _, x := range b {
+		m[x] |= 2
+	}
+	for _, v := range m {
+		if v != 3 {
+			return false
+		}
+	}
+	return true
 }
 
 // c03Covers: the reference meaning of "san covers name": equal, or name with its k >= 1 leftmost
@@ -626,7 +654,15 @@ func (env *c03Env) lookupCase(w *emit.Writer, in c03In, class string) error {
 	e.Len(len(ids))
 	for _, id := range ids {
 		a := attrs[id]
-		e.Str(id).Bool(a.sup).Bool(a.valid).Bool(a.complete)
+		// the subject names the leaf really carries (DNS names, IP addresses), read from the x509
+		// leaf the harness issued -- not the Names certmagic derived
+		real := c03LeafNames(env.pool[id])
+		e.Str(id).Bool(a.sup).Bool(a.valid).Bool(a.complete).StrList(real)
+		for i, k := range before.Keys {
+			if k == id && !sameSet(before.Certs[i].Names, real) {
+				env.namesMismatch = append(env.namesMismatch, fmt.Sprintf("%s: certmagic %v, leaf %v", id, before.Certs[i].Names, real))
+			}
+		}
 	}
 	e.Str(in.Default).Str(in.Fallback).Str(sni).Str(ip)
 	e.Int(c03Policies[in.Policy])
@@ -1235,6 +1271,7 @@ func runC03(tier string, seed int64, outdir string, replay string) error {
 	}
 	w.Meta.Oracles = append(w.Meta.Oracles,
 		emit.OracleCheck{Name: "every certificate resource in the storage double is stored under one of the certificate's own names (C06)", OK: len(env.loadedNotCovering) == 0, Detail: det},
+		emit.OracleCheck{Name: "the Names of every cached certificate are the DNS names and IP addresses its leaf carries", OK: len(env.namesMismatch) == 0, Detail: strings.Join(env.namesMismatch[:min(len(env.namesMismatch), 3)], "; ")},
 		emit.OracleCheck{Name: "hello.SupportsCertificate was observed both true and false over the pool", OK: env.nSup > 0 && env.nUnsup > 0, Detail: fmt.Sprintf("supported=%d unsupported=%d", env.nSup, env.nUnsup)})
 	return nil
 }
